@@ -257,7 +257,7 @@ def _run_shard(task):
         # 2. generated search
         hyp_count = 0
         if clause.gen is not None:
-            total = clause.n[tier]
+            total = max(1, int(clause.n[tier] * float(os.environ.get("VERIF_SCALE", "1"))))
             n = total // nshards + (1 if shard < total % nshards else 0)
             if n > 0:
                 before = st.evals
@@ -331,6 +331,7 @@ def _write_replay(prop_id, clause_name, sig, case_enc, detail, seed, tier):
     with open(path, "w") as f:
         json.dump({"property": prop_id, "clause": clause_name, "signature": sig,
                    "case": case_enc, "detail": detail, "seed": seed, "tier": tier,
+                   "python_optimized": bool(sys.flags.optimize),
                    "replay_cmd": "/venv/bin/python check.py %s --replay %s" % (prop_id, path)},
                   f, indent=1, sort_keys=True)
     return path
@@ -451,6 +452,30 @@ def run_fuzz(prop_id, clauses, tier, seed, known_sigs):
     return info, failures, notes
 
 
+def run_optimized(prop_id, clause_names, tier, seed):
+    """Run the named clauses again under `python -O` (asserts stripped) at a reduced budget.
+    -> (info for the evidence, [(sig, replay, detail)], return code of the sub-run)."""
+    import subprocess
+    env = dict(os.environ, VERIF_SUBRUN="1", VERIF_CLAUSES=",".join(clause_names), VERIF_SEED=str(seed),
+               VERIF_SCALE=os.environ.get("VERIF_OPT_SCALE", "0.2"), PYTHONHASHSEED="0")
+    t0 = time.time()
+    r = subprocess.run([sys.executable, "-O", os.path.join(VERIF_DIR, "check.py"), prop_id, "--tier", tier],
+                       capture_output=True, text=True, env=env, cwd=VERIF_DIR)
+    info = {"run": True, "interpreter_flags": "-O", "clauses": clause_names, "wall_s": round(time.time() - t0, 1),
+            "returncode": r.returncode}
+    viol = []
+    for line in r.stdout.splitlines():
+        if line.startswith("SUBRUN-STATS "):
+            info.update(json.loads(line[len("SUBRUN-STATS "):]))
+        elif line.startswith("SUBRUN-VIOLATION "):
+            v = json.loads(line[len("SUBRUN-VIOLATION "):])
+            viol.append((v["sig"] + " [python -O]", v["replay"], v["detail"]))
+    if r.returncode not in (0, 1) or (r.returncode == 1 and not viol):
+        info["tail"] = (r.stdout[-1500:] + r.stderr[-1500:])
+        return info, viol, 2
+    return info, viol, r.returncode
+
+
 def run_property(prop_id, tier, seed, workers=None):
     """Returns exit code. Prints VIOLATION / KNOWN-FINDING lines, writes evidence."""
     t0 = time.time()
@@ -464,6 +489,10 @@ def run_property(prop_id, tier, seed, workers=None):
         return 2
     mod = load_prop(prop_id)
     clauses = mod.clauses()
+    subrun = os.environ.get("VERIF_SUBRUN") == "1"
+    if subrun:
+        only = set(os.environ.get("VERIF_CLAUSES", "").split(","))
+        clauses = [c for c in clauses if c.name in only]
     known = load_known()
     known_open = [k for k in known["open"] if k["property"] == prop_id]
     known_sigs = {k["signature"] for k in known_open}
@@ -551,14 +580,35 @@ def run_property(prop_id, tier, seed, workers=None):
                 pending.append(c)
 
     fuzz_info, fuzz_notes = {}, []
-    if not errors:
+    if not errors and not subrun:
         fuzz_info, fuzz_fail, fuzz_notes = run_fuzz(prop_id, clauses, tier, seed, known_sigs)
         for k, val in fuzz_fail.items():
             found.setdefault(k, val)
+    # the same rejection-type clauses once more in an interpreter started with -O (assert statements stripped)
+    opt_info = None
+    if not errors and not subrun and getattr(mod, "OPTIMIZED", None):
+        opt_info, opt_viol, opt_rc = run_optimized(prop_id, list(mod.OPTIMIZED), tier, seed)
+        if opt_rc == 2:
+            print("HARNESS-ERROR property=%s the python -O sub-run failed:\n%s" % (prop_id, opt_info.get("tail", "")))
+            return 2
+        violations.extend(opt_viol)
     for (cname, sig), (case_enc, detail) in sorted(found.items()):
         path = _write_replay(prop_id, cname, sig, case_enc, detail, seed, tier)
         violations.append((sig, path, detail))
 
+    if subrun:
+        # sub-run: report to the parent on stdout, write no evidence
+        for sig, path, detail in violations:
+            print("SUBRUN-VIOLATION %s" % json.dumps({"sig": sig, "replay": path, "detail": str(detail)[:600]}))
+        if errors:
+            for cname, sh, err in errors[:3]:
+                print("HARNESS-ERROR property=%s clause=%s shard=%s\n%s" % (prop_id, cname, sh, err))
+            return 2
+        print("SUBRUN-STATS %s" % json.dumps({"evaluations": sum(a["evals"] for a in agg.values()),
+                                              "distinct_nontrivial": sum(len(a["keys"]) + a["extra_nt"] for a in agg.values()),
+                                              "clauses": {c.name: agg[c.name]["evals"] for c in clauses},
+                                              "known": dict(known_seen)}))
+        return 1 if violations else 0
     wall = time.time() - t0
     if errors:
         for cname, sh, err in errors[:3]:
@@ -568,7 +618,7 @@ def run_property(prop_id, tier, seed, workers=None):
     # evidence
     fuzz_exec = sum(d["executions"] for d in fuzz_info.values())
     fuzz_new = sum(d["coverage_increasing_inputs"] for d in fuzz_info.values())
-    total_evals = sum(a["evals"] for a in agg.values()) + n_regress + fuzz_exec
+    total_evals = sum(a["evals"] for a in agg.values()) + n_regress + fuzz_exec + ((opt_info or {}).get("evaluations", 0))
     total_nt = sum(len(a["keys"]) + a["extra_nt"] for a in agg.values()) + fuzz_new
     samples = []
     for c in clauses:
@@ -601,6 +651,7 @@ def run_property(prop_id, tier, seed, workers=None):
             "coverage_guided_fuzzing": {"engine": "atheris/libFuzzer", "clauses": fuzz_info, "notes": fuzz_notes,
                                         "counting": "executions are added to evaluations; inputs that increased "
                                                     "coverage (libFuzzer new_units_added) count as distinct non-trivial"},
+            "optimized_interpreter": opt_info or {"run": False},
             "workers": workers,
         },
         "assumptions": list(getattr(mod, "ASSUMPTIONS", [])) + [
